@@ -168,16 +168,30 @@ func (g *gen) stmt(c ctx) []*lang.S {
 				}
 				args = []*lang.E{lang.Num(fmt.Sprint(from)), lang.Num(fmt.Sprint(to))}
 			default:
-				step := 1 + g.pick(2, "step")
+				// steps incl. fractions that are exact in binary (0.5, 1.5) and bounds that the step does not hit (the end is "the last number within step")
+				step := []string{"1", "2", "0.5", "1.5", "3"}[g.pick(5, "step")]
 				if from > to {
-					args = []*lang.E{lang.Num(fmt.Sprint(from)), lang.Num(fmt.Sprint(to)), lang.Op("minus", lang.Num(fmt.Sprint(step)))}
+					args = []*lang.E{lang.Num(fmt.Sprint(from)), lang.Num(fmt.Sprint(to)), lang.Op("minus", lang.Num(step))}
 				} else {
-					args = []*lang.E{lang.Num(fmt.Sprint(from)), lang.Num(fmt.Sprint(to)), lang.Num(fmt.Sprint(step))}
+					args = []*lang.E{lang.Num(fmt.Sprint(from)), lang.Num(fmt.Sprint(to)), lang.Num(step)}
+				}
+				if g.pick(4, "negfrom") == 0 && from <= to {
+					args[0] = lang.Op("minus", lang.Num(fmt.Sprint(1+g.pick(2, "nf")))) // negative start
 				}
 			}
 			body := append([]*lang.S{lang.Rec(lang.Var(v))}, g.block(li, 3)...)
 			return []*lang.S{{K: "for", Vars: []string{v}, E: lang.Call(lang.Var("range"), args...), Body: body}, g.marker()}
 		case 3: // list
+			if g.pick(3, "destr") == 0 { // list of pairs, destructured
+				a, b := fmt.Sprintf("x%d", g.nvar), fmt.Sprintf("y%d", g.nvar)
+				li.vars = append(append([]string{}, c.vars...), a, b)
+				l := lang.List()
+				for i, n := 0, g.pick(4, "pl"); i < n; i++ {
+					l.A = append(l.A, lang.List(lang.Num(fmt.Sprint(g.pick(9, "pa"))), lang.Num(fmt.Sprint(g.pick(9, "pb")))))
+				}
+				body := append([]*lang.S{lang.Rec(lang.Var(a)), lang.Rec(lang.Var(b))}, g.block(li, 2)...)
+				return []*lang.S{{K: "for", Vars: []string{a, b}, E: l, Body: body}, g.marker()}
+			}
 			v := fmt.Sprintf("i%d", g.nvar)
 			li.vars = append(append([]string{}, c.vars...), v)
 			l := lang.List()
